@@ -266,6 +266,66 @@ def typedef_ns_case(idx, payload):
     return res
 
 
+def regen_case(idx, payload):
+    """a toolbox REGENERATED into the directory of an earlier revision of the same module (one method added to / removed from an
+    early class, so every later id shifts by one while most files keep their length): the directory then holds the toolbox
+    of the new revision — same bytes as generating it into a fresh directory — and its dispatch table is consistent"""
+    import copy
+    import os
+    import random
+    import shutil
+    import tempfile
+    import gen
+    import streams
+    from common import ensure_matlab_tpl
+    ensure_matlab_tpl()
+    from gtwrap.matlab_wrapper import MatlabWrapper
+    seed, _ = payload
+    rng = random.Random(seed * 1000003 + idx + 939393)
+    g = gen.Gen(rng, gen.Cfg(max_decls=5, max_members=4, max_depth=1, matlab_safe=True, typedef_same_ns=True, p_template=0.0, p_virtual=0.3,
+                             extra_kinds=['cls', 'cls', 'cls', 'func'], rich_defaults=False))
+    m = gen.gen_module_inst(g)
+    classes = [d.cls for _, content in gen.walk_namespaces(m) for d in content if d.kind == 'cls']
+    res = dict(idx=idx, text="", bad=None, ran=False)
+    if len(classes) < 2:
+        return res
+    m2 = copy.deepcopy(m)
+    c2 = [d.cls for _, content in gen.walk_namespaces(m2) for d in content if d.kind == 'cls'][0]
+    c2.members.append(gen.Member('method', ret=gen.Ret(gen.Ty([], "double", None, False, '', True)), name="addedq9", args=[], const=True))
+    t1, t2 = gen.layout(rng, gen.lexemes(m), 'space'), gen.layout(rng, gen.lexemes(m2), 'space')
+    if rng.random() < 0.5:
+        t1, t2 = t2, t1          # the new revision is the SHORTER one
+    res["text"] = t1 + "\x1e" + t2
+    fresh = impl_matlab([t2], "mymod", [], False)
+    if fresh[0] != "ok" or impl_matlab([t1], "mymod", [], False)[0] != "ok":
+        return res
+    d = tempfile.mkdtemp(prefix="verif_c05g_")
+    try:
+        out = os.path.join(d, "tb")
+        os.makedirs(out)
+        for k, t in enumerate((t1, t2)):
+            p = os.path.join(d, "rev%d.i" % k)
+            open(p, "w", encoding="utf-8").write(t)
+            MatlabWrapper(module_name="mymod", ignore_classes=[], use_boost_serialization=False).wrap([p], path=out)
+        files = {}
+        for root, _, fs in os.walk(out):
+            for fn in fs:
+                files[os.path.relpath(os.path.join(root, fn), out)] = open(os.path.join(root, fn), encoding="utf-8", newline="").read()
+        res["ran"] = True
+        stale = sorted(k for k in fresh[1] if files.get(k) != fresh[1][k])
+        if stale:
+            k = stale[0]
+            res["bad"] = "after regenerating into the directory of the earlier revision, %s is not the file of the new revision (%s)" % (
+                k, streams.first_diff(fresh[1][k], files.get(k, "<missing>")))
+            return res
+        p = pj.dispatch_problems({k: v for k, v in files.items() if k in fresh[1]}, "mymod")
+        if p:
+            res["bad"] = p[0]
+    finally:
+        shutil.rmtree(d, ignore_errors=True)
+    return res
+
+
 def extra_stream(ctx, fn, tag, what, n, off=0, collect=True):
     first = None
     for r in fw.run_cases(fn, [(ctx.seed + off, None)] * n):
@@ -341,6 +401,7 @@ def main(ctx):
     shared_dir_stream(ctx, ctx.scale(40, 500))
     extra_stream(ctx, script_case, "script", "toolbox written by scripts/matlab_wrap.py for a list of files: ", ctx.scale(16, 200))
     extra_stream(ctx, typedef_ns_case, "typedef_ns", "typedef instantiations in nested namespaces: ", ctx.scale(40, 500))
+    extra_stream(ctx, regen_case, "regen", "toolbox regenerated into the directory of an earlier revision: ", ctx.scale(40, 400))
     for e in ctx.known:
         w = e["witness"]
         st, out = impl_matlab([w["input"]], "mymod", [], False)
@@ -351,7 +412,7 @@ def main(ctx):
                 ctx.spec_fail("a defect recorded as fixed is back: " + e["what"], **w)
         elif still:
             ctx.known_hit(e)
-    return fw.finish(ctx, search=lambda c: search(c) or reuse_stream(c, c.scale(100, 600), off=3, collect=False) or multifile_stream(c, c.scale(60, 400), off=5, collect=False) or shared_dir_stream(c, c.scale(40, 300), off=7, collect=False) or extra_stream(c, script_case, 'script', 'toolbox written by scripts/matlab_wrap.py for a list of files: ', c.scale(16, 100), off=9, collect=False) or extra_stream(c, typedef_ns_case, 'typedef_ns', 'typedef instantiations in nested namespaces: ', c.scale(40, 300), off=9, collect=False), assumptions=["hand-written model of matlab_wrapper/wrapper.py, tied byte-exactly on generated inputs"])
+    return fw.finish(ctx, search=lambda c: search(c) or reuse_stream(c, c.scale(100, 600), off=3, collect=False) or multifile_stream(c, c.scale(60, 400), off=5, collect=False) or shared_dir_stream(c, c.scale(40, 300), off=7, collect=False) or extra_stream(c, script_case, 'script', 'toolbox written by scripts/matlab_wrap.py for a list of files: ', c.scale(16, 100), off=9, collect=False) or extra_stream(c, typedef_ns_case, 'typedef_ns', 'typedef instantiations in nested namespaces: ', c.scale(40, 300), off=9, collect=False) or extra_stream(c, regen_case, 'regen', 'toolbox regenerated into the directory of an earlier revision: ', c.scale(40, 300), off=9, collect=False), assumptions=["hand-written model of matlab_wrapper/wrapper.py, tied byte-exactly on generated inputs"])
 
 
 def replay(ctx, path):
